@@ -62,7 +62,7 @@ class AbsReq:
         self.http11 = False
 
 
-def gen_absreq(rng, big=False):
+def gen_absreq(rng, big=False, bighdr=False):
     r = AbsReq()
     r.method = rng.choice([b"GET", b"POST", b"PUT", b"DELETE", b"X-custom!", b"get"])
     r.script = rng.choice([b"/s", b"/s", b"/a", b"/a", b"/f", b"/f", b""])
@@ -88,6 +88,17 @@ def gen_absreq(rng, big=False):
         v = rand_text(rng, rng.choice([0, 1, 5, 40])).strip(b" \t")
         v = v.replace(b'"', b"").replace(b"(", b"").replace(b"\\", b"")
         r.headers.append((nm, v))
+    if bighdr:
+        # header section close to (but within) the 16 KiB limits of all three front-ends
+        budget = rng.choice([3000, 9000, 15000, 15600])
+        used = sum(len(a) + len(b) + 12 for a, b in r.headers)
+        i = 0
+        while used < budget:
+            n = min(budget - used, rng.choice([200, 900, 4000]))
+            v = rand_text(rng, n).strip(b" \t").replace(b'"', b"").replace(b"(", b"").replace(b"\\", b"")
+            nm = b"X-Big-%d" % i
+            r.headers.append((nm, v)); used += len(nm) + len(v) + 12; i += 1
+        r.get = r.get[:1]; r.path = r.path[:8]
     if rng.random() < 0.5:
         cn = set()
         for _ in range(rng.choice([1, 2, 4])):
